@@ -146,6 +146,118 @@ def system_routing(kind, masks, group):
                         [mod + ".__post_init__", mod + ".evaluate", DK + "_set_derivatives"])
 
 
+def system_eq_param_routing(kind):
+    """per-unknown keys that select an *equation parameter* for a constraint term, with networks whose output depends on
+    that parameter: d total / d a is the sum of the selected constraint terms' derivatives only (the dynamic part keeps its
+    own, default, keys)"""
+    from contracts.c13 import SysODE, SysStatio, SysNonStatio
+    from jinns.loss import SystemLossODE, SystemLossPDE, LossWeightsODEDict, LossWeightsPDEDict
+    from jinns.data._Batchs import ODEBatch, PDEStatioBatch, PDENonStatioBatch
+    def build():
+        dp = {"ODE": 1, "statio": 1, "nonstatio": 2}[kind]
+        eqt = {"ODE": "ODE", "statio": "statio_PDE", "nonstatio": "nonstatio_PDE"}[kind]
+        uk = ["u", "v"]
+        scale = lambda i, o, p: o * p.eq_params["a"]
+        nets = {k_: Net(f"E{k_}", eqt, dp, 1, output_transform=scale) for k_ in uk}
+        cls = {"ODE": SysODE, "statio": SysStatio, "nonstatio": SysNonStatio}[kind]
+        R = Opaque("RE", dp + 2 * (1 + dp) + 1, 1)
+        dyn = {"e1": cls(R=R, ukeys=("u", "v"))}
+        fb = {k_: OpaqueFn(f"eb{k_}", [(dp,)], (1,)) for k_ in uk}
+        W = 3.0
+        def keys_for(k_):
+            sel = Params(nn_params=False, eq_params={"a": k_ == "u"})        # u's constraint terms select the parameter a only
+            off = Params(nn_params=False, eq_params={"a": False})
+            if kind == "ODE":
+                return DerivativeKeysODE(dyn_loss=off, initial_condition=sel, observations=off)
+            return DerivativeKeysPDENonStatio(dyn_loss=off, boundary_loss=sel, observations=off, norm_loss=off, initial_condition=off)
+        def total(a_, th, pts_, t0, u0, bb):
+            pd = ParamsDict(nn_params={k_: nets[k_].nn_params(th[i]) for i, k_ in enumerate(uk)}, eq_params={"a": a_})
+            kw = dict(u_dict={k_: nets[k_].u for k_ in uk}, dynamic_loss_dict=dyn, params_dict=pd,
+                      derivative_keys_dict={k_: keys_for(k_) for k_ in uk})
+            with jax.ensure_compile_time_eval():
+                if kind == "ODE":
+                    loss = SystemLossODE(loss_weights=LossWeightsODEDict(dyn_loss=1.0, initial_condition=W), **kw,
+                                         initial_condition_dict={k_: (0.5, np.zeros((1,))) for k_ in uk})
+                else:
+                    bf = (lambda k_: (lambda x: fb[k_](x))) if kind == "statio" else (lambda k_: (lambda t, x: fb[k_](jnp.concatenate([t, x]))))
+                    loss = SystemLossPDE(loss_weights=LossWeightsPDEDict(dyn_loss=1.0, boundary_loss=W), **kw,
+                                         omega_boundary_fun_dict={k_: bf(k_) for k_ in uk},
+                                         omega_boundary_condition_dict={k_: "dirichlet" for k_ in uk})
+            if kind == "ODE":
+                loss = eqx.tree_at(lambda l: [l.u_constraints_dict[k_].initial_condition for k_ in uk], loss, [(t0, u0[i]) for i in range(2)])
+                batch = ODEBatch(temporal_batch=pts_)
+            elif kind == "statio":
+                batch = PDEStatioBatch(inside_batch=pts_, border_batch=bb)
+            else:
+                batch = PDENonStatioBatch(times_x_inside_batch=pts_, times_x_border_batch=bb)
+            return loss.evaluate(pd, batch)[0]
+        def fn(a_, th, pts_, t0, u0, bb):
+            return jax.grad(total)(a_, th, pts_, t0, u0, bb)
+        def spec(a_, th, pts_, t0, u0, bb, wrong=False):
+            n = nets["u"].jet(th[0])
+            A = a_[()]
+            if kind == "ODE":
+                term = c(W) * (A * n(0, [t0[()]]) - u0[0, 0]) ** 2
+            else:
+                term = P.ZERO
+                for f in range(2):
+                    pt = [bb[0, l, f] for l in range(dp)]
+                    term = term + c(W) * (A * n(0, pt) - P.app(fb["u"].name, 0, (), pt)) ** 2
+            return arr(lambda _: P.diff(term, A) * (2 if wrong else 1), ())
+        B_ = 2
+        return dict(fn=fn, spec=spec, canary=lambda *z: spec(*z, wrong=True),
+                    inputs=[Inp("a", ()), Inp("th", (2, 1)), Inp("pts", (B_,) if kind == "ODE" else (B_, dp)), Inp("t0", ()), Inp("u0", (2, 1)),
+                            Inp("bb", (1, dp, 2))])
+    mod = "jinns.loss._LossODE:SystemLossODE" if kind == "ODE" else "jinns.loss._LossPDE:SystemLossPDE"
+    return EqObligation(f"C06/{mod.split(':')[1]}/ensures.per_unknown_routing_to_an_equation_parameter[{kind}]", build,
+                        [mod + ".evaluate", "jinns.loss._loss_utils:constraints_system_loss_apply", DK + "_set_derivatives"])
+
+
+def singular_sensitivity(seed):
+    """bounded, native: a parameter that no key selects receives *exactly* zero gradient, also at a point where the term's
+    sensitivity to it is infinite (sqrt at 0, a norm at the origin): the mask removes the dependence, it does not multiply
+    a non-finite cotangent by zero"""
+    import warnings
+    from jinns.loss import LossODE, ODE, LossWeightsODE
+    from jinns.data._Batchs import ODEBatch
+    from jinns.parameters import DerivativeKeysODE
+    from jinns.utils._pinn import PINN
+
+    class Dyn(ODE):
+        def equation(self, t, u, params):
+            k, w = params.eq_params["k"], params.eq_params["w"]
+            return jax.grad(lambda tt: u(tt, params)[0])(t)[None] + (jnp.sqrt(k) + jnp.linalg.norm(w)) * u(t, params)
+
+    class M(eqx.Module):
+        w: jax.Array
+        def __call__(self, x):
+            return jnp.tanh(jnp.sum(self.w * x))[None]
+    with warnings.catch_warnings():
+        warnings.simplefilter("ignore")
+        u = PINN(mlp=M(jnp.ones(1)), slice_solution=jnp.s_[0:1], eq_type="ODE", input_transform=lambda i, p: i, output_transform=lambda i, o, p: o)
+        params = Params(nn_params=u.params, eq_params={"k": jnp.array(0.0), "w": jnp.zeros(2)})
+        bad = []
+        forms = {"default": DerivativeKeysODE(params=params),
+                 "from_str": DerivativeKeysODE.from_str(params=params, dyn_loss="nn_params", initial_condition="nn_params", observations="nn_params"),
+                 "boolean tree": DerivativeKeysODE(dyn_loss=Params(nn_params=True, eq_params={"k": False, "w": False}), params=params)}
+        for nm, dk in forms.items():
+            loss = LossODE(u=u, dynamic_loss=Dyn(), derivative_keys=dk, initial_condition=(0.0, jnp.array([1.0])),
+                           loss_weights=LossWeightsODE(dyn_loss=1.0, initial_condition=1.0))
+            batch = ODEBatch(temporal_batch=jnp.linspace(0.1, 0.9, 4))
+            for mode in ("eager", "jit"):
+                f = (lambda p: loss.evaluate(p, batch)[0])
+                g = (jax.jit(jax.grad(f)) if mode == "jit" else jax.grad(f))(params)
+                gk, gw = np.asarray(g.eq_params["k"]), np.asarray(g.eq_params["w"])
+                if not (np.all(gk == 0.0) and np.all(gw == 0.0)):
+                    bad.append(f"keys given as {nm} ({mode}): d total / d k = {gk.tolist()}, d total / d w = {gw.tolist()} at k = 0, w = 0 "
+                               f"(neither is selected by any term: both must be exactly 0)")
+    if bad:
+        return dict(status="violated", failure="non-finite sensitivity", backend="native(bounded)", bounded=True, detail=bad[0],
+                    replay=dict(native_disagrees=True, native=bad[:4], expected="exactly zero",
+                                inputs="LossODE, du/dt + (sqrt(k) + |w|) u, k = 0, w = (0, 0), default derivative keys"))
+    return dict(status="discharged", backend="native(bounded)", bounded=True, sample="3 key forms x eager / jit at a singular point")
+
+
 def system_mask_sets(kind, tier):
     cterms = ["initial_condition", "observations"] if kind == "ODE" else ["initial_condition", "observations", "boundary_loss"]
     keys = [(u, t) for u in ("u", "v") for t in cterms]
@@ -240,6 +352,8 @@ def obligations(tier):
         for m in system_mask_sets(kind, tier):
             for g in ("u", "v"):
                 obs.append(system_routing(kind, m, g))
+    for kind in ("ODE", "statio", "nonstatio"):
+        obs.append(system_eq_param_routing(kind))
     # the keys also route the gradient when the batch carries per-sample parameters (C12 gradient obligations, reported here)
     from contracts import c12
     for kind in ("ODE", "statio", "nonstatio"):
@@ -247,6 +361,8 @@ def obligations(tier):
             o = c12.batched(kind, K, 2, grad_group=g)
             o.name = o.name.replace("C12/", "C06/")
             obs.append(o)
+    obs.append(FnObligation("C06/bounded/unselected_parameter_with_singular_sensitivity_gets_exactly_zero", singular_sensitivity,
+                            [DK + "_set_derivatives"]))
     obs.append(FnObligation("C06/mask_builders/bounded.exhaustive_key_sets_0..3", mask_builders,
                             [DK + "_get_masked_parameters", DK + "DerivativeKeysODE.from_str",
                              DK + "DerivativeKeysPDEStatio.from_str", DK + "DerivativeKeysPDENonStatio.from_str"]))
